@@ -1237,6 +1237,145 @@ many_users(int nusers, int cancel_last)
 	VT->traces++;
 }
 
+/* the "dump everybody" path under faults: 3 users with one task each checkpointed (old), then 18 acknowledged
+ * requests (6 more tasks per user, interleaved) fill the change notes, and the checkpoint that follows writes all
+ * users' files side by side, hopping between their descriptors.  Every spool call of that checkpoint fails once
+ * (EIO, ENOSPC, EMFILE, short write); afterwards every live file must be one complete calendar holding either the
+ * user's old task or all seven, and a restart must schedule for each user one of the two sets. */
+static int
+mf_count(const struct hx_file_s *f, unsigned u, int *complete)
+{
+	char fn[40];
+	int n = 0;
+	snprintf(fn, sizeof(fn), "echsq_%u.ics", u);
+	*complete = 1;
+	for (int i = 0; i < HX_NFILES; i++) {
+		if (!f[i].live || strcmp(f[i].name, fn)) continue;
+		*complete = hx_complete_ical(f[i].data, f[i].len);
+		for (size_t o = 0; o + 4 < f[i].len; o++) {
+			if ((o == 0 || f[i].data[o - 1] == '\n') && !memcmp(f[i].data + o, "UID:", 4)) n++;
+		}
+		return n;
+	}
+	return -1;
+}
+
+static void
+many_faults(void)
+{
+	char req[2048], shape[96];
+	struct hx_reply_s rp;
+	long nsteps;
+	pid_t c;
+	int st;
+	static const struct { const char *name; int err; int shortw; } faults[] = {{"EIO", EIO, 0}, {"ENOSPC", ENOSPC, 0}, {"EMFILE", EMFILE, 0}, {"short-write", 0, 1}};
+
+	snprintf(hist, sizeof(hist), "users 2000..2002 add one task each, CHKPT, then 18 requests (6 more tasks per user, interleaved), CHKPT with one failing spool call");
+	vd_desc("%s", hist);
+	for (int i = 0; i < 3; i++) {
+		size_t o = (size_t)snprintf(req, sizeof(req), "BEGIN:VCALENDAR\nVERSION:2.0\nMETHOD:PUBLISH\nBEGIN:VEVENT\nUID:U%d-0\nSUMMARY:job\nDTSTART:20300101T000020Z\nEND:VEVENT\nEND:VCALENDAR\n", i);
+		hx_request(&rp, 2000u + (unsigned)i, req, o);
+		if (rp.nsucc != 1) { report("reply", "ADD/refused", "task refused"); return; }
+	}
+	chkpnt();
+	for (int k = 1; k <= 6; k++) {
+		for (int i = 0; i < 3; i++) {
+			size_t o = (size_t)snprintf(req, sizeof(req), "BEGIN:VCALENDAR\nVERSION:2.0\nMETHOD:PUBLISH\nBEGIN:VEVENT\nUID:U%d-%d\nSUMMARY:job number %d of user %d\nDTSTART:20300101T0000%02dZ\nEND:VEVENT\nEND:VCALENDAR\n", i, k, k, i, 20 + k);
+			hx_request(&rp, 2000u + (unsigned)i, req, o);
+			if (rp.nsucc != 1) { report("reply", "ADD/refused", "task refused"); return; }
+		}
+	}
+	/* how many spool calls does the undisturbed checkpoint make */
+	VT->nscratch_steps = -1;
+	fflush(stdout);
+	if ((c = fork()) == 0) {
+		prctl(PR_SET_PDEATHSIG, SIGKILL);
+		hx_step = 0, hx_fail_at = -1, hx_steplog_n = 0, hx_steplog[0] = '\0';
+		hx_step_hook = NULL;
+		hx_steps_armed = 1;
+		chkpnt();
+		hx_steps_armed = 0;
+		VT->nscratch_steps = hx_step;
+		for (int i = 0; i < 3; i++) {
+			int comp, n = mf_count(hx_files, 2000u + (unsigned)i, &comp);
+			if (n != 7 || !comp) {
+				report("reload-set", "many-faults/undisturbed", "after the undisturbed checkpoint user %u's file holds %d tasks (complete: %d), expected 7", 2000u + i, n, comp);
+			}
+		}
+		fflush(stdout);
+		_exit(0);
+	}
+	while (waitpid(c, &st, 0) < 0 && errno == EINTR);
+	nsteps = VT->nscratch_steps;
+	VT->transitions++;
+	if (nsteps < 0) {
+		report("crash", "many-faults", "daemon image died in the undisturbed checkpoint (status %#x)", st);
+		return;
+	}
+	for (long k = 0; k < nsteps; k++) {
+		for (size_t f = 0; f < sizeof(faults) / sizeof(*faults); f++) {
+			vd_beat();
+			fflush(stdout);
+			if ((c = fork()) == 0) {
+				struct rs_task_s rs[HX_MAXTASKS];
+				const char *what = "?";
+				int n;
+				prctl(PR_SET_PDEATHSIG, SIGKILL);
+				hx_step = 0, hx_steplog_n = 0, hx_steplog[0] = '\0';
+				hx_fail_at = k, hx_fail_errno = faults[f].err, hx_fail_short = faults[f].shortw;
+				hx_step_hook = NULL;
+				hx_steps_armed = 1;
+				chkpnt();
+				hx_steps_armed = 0;
+				{
+					static char tmp[1024];
+					char *tok, *sv;
+					long i = 0;
+					snprintf(tmp, sizeof(tmp), "%s", hx_steplog);
+					for (tok = strtok_r(tmp, " ", &sv); tok; tok = strtok_r(NULL, " ", &sv), i++) {
+						if (i == k) { what = tok; break; }
+					}
+				}
+				if (faults[f].shortw && strcmp(what, "write-short")) _exit(0);
+				VT->faults++;
+				snprintf(shape, sizeof(shape), "many-faults/%s-fails-%s", what, faults[f].name);
+				for (int i = 0; i < 3 && !pruned; i++) {
+					int comp, nu = mf_count(hx_files, 2000u + (unsigned)i, &comp);
+					if (!comp) {
+						report("torn-live", shape, "user %u's live queue file is not one complete calendar", 2000u + i);
+					} else if (nu != 1 && nu != 7) {
+						report("reload-set", shape, "user %u's live queue file holds %d tasks: neither the old checkpoint (1) nor the new one (7)", 2000u + i, nu);
+					}
+				}
+				if (!pruned) {
+					VT->reloads++;
+					n = rs_reload(hx_files, rs);
+					if (n < 0) {
+						report("reload-died", shape, "a daemon started on this spool dies while loading it");
+					} else {
+						for (int i = 0; i < 3 && !pruned; i++) {
+							int cnt = 0;
+							for (int j = 0; j < n; j++) cnt += rs[j].owner == 2000u + (unsigned)i;
+							if (cnt != 1 && cnt != 7) {
+								report("reload-set", shape, "restart schedules %d tasks for user %u: neither the old checkpoint (1) nor the new one (7)", cnt, 2000u + i);
+							}
+						}
+					}
+				}
+				fflush(stdout);
+				_exit(0);
+			}
+			while (waitpid(c, &st, 0) < 0 && errno == EINTR);
+			if (!(WIFEXITED(st) && WEXITSTATUS(st) == 0)) {
+				snprintf(shape, sizeof(shape), "many-faults/step%ld-%s", k, faults[f].name);
+				report("fail-died", shape, "daemon image died (status %#x) when spool call %ld failed with %s", st, k, faults[f].name);
+				pruned = 0;
+			}
+		}
+	}
+	VT->traces++;
+}
+
 static void
 enumerate(void)
 {
@@ -1282,6 +1421,31 @@ enumerate(void)
 		return;
 	}
 	if (!strcmp(mode, "many")) {
+		if (vd_next()) {
+			vd_shape("many/faults");
+			memset(VT, 0, sizeof(*VT));
+			fflush(stdout);
+			pid_t c = fork();
+			if (c == 0) {
+				prctl(PR_SET_PDEATHSIG, SIGKILL);
+				many_faults();
+				fflush(stdout);
+				_exit(0);
+			}
+			int st;
+			while (waitpid(c, &st, 0) < 0 && errno == EINTR);
+			if (!(WIFEXITED(st) && WEXITSTATUS(st) == 0)) {
+				vd_desc("3 users, 18 requests, CHKPT with faults");
+				vd_viol("crash/many-faults", "daemon image died (status %#x)", st);
+			}
+			vd_count("states", 1 + VT->transitions);
+			vd_count("transitions", VT->transitions);
+			vd_count("traces", VT->traces);
+			vd_count("faults", VT->faults);
+			vd_count("reloads", VT->reloads);
+			vd_nontrivial();
+			vd_sample("3 users x 7 tasks, dump-everybody checkpoint, every spool call failing once: %ld faults judged", VT->faults);
+		}
 		for (int n = 15; n <= 18; n++) {
 			for (int cl = 0; cl < 2; cl++) {
 				if (!vd_next()) continue;
